@@ -6,7 +6,7 @@ CLAIMS = {'C06': {'text': "Every random draw in src/quansino is shown (who-may-c
                  '(seed None / 0 / k>0) shows the given seed reaches the bit generator unchanged; global/fresh generators, clock, pid and set-order dependence are excluded package-wide. Universal '
                  "over seeds and global-generator states because it is a fact about the code's shape, not a sample of runs. G4 also treats set algebra on key views and materialised sets as "
                  'hash-ordered iterables. G5: no mutable object created at module or class level is handed out as per-object state (shared default operations, masks, scratch lists): two simulations '
-                 'built in one process share nothing but code and constants.',
+                 'built in one process share nothing but code and constants. G3 also scans every function that accepts a seed: a seed is never truth-tested (0 is a seed).',
          'note': "Trusted: numpy Generator(PCG64(seed)) is deterministic; ASE/numpy arithmetic is reproducible. Not decided: 'different seeds give different trajectories'. Assertions in the analysed "
                  'code are taken to hold (they are dropped from the normal form).',
          'technique': 'static who-may-call over resolved imports + receiver provenance dataflow + finite case analysis of the seed path'},
@@ -16,7 +16,8 @@ CLAIMS = {'C06': {'text': "Every random draw in src/quansino is shown (who-may-c
                  "all ordered pairs in the thorough tier). S4 also rejects tunables written only under a condition (`if value != DEFAULT`) unless the class's own constructor chain provably leaves "
                  "the attribute at that constant. S5 live-copy: a serialised attribute must be the one the object's behaviour reads (a second, construction-time copy of a public tunable is "
                  "reported). S5 includes driver settings held in the context: the serialised value must read the slot the setting lives in. S7: the drivers' from_dict works on a deep copy of its "
-                 'argument (the rebuilt simulation owns its Atoms object and context values).',
+                 'argument (the rebuilt simulation owns its Atoms object and context values). S8: inside a from_dict an entry of the keyword dictionary is only ever replaced by the component rebuilt '
+                 'from it (no clamping / defaulting of stored values).',
          'note': "Trusted: ASE's JSON encoder round-trips ndarray/Atoms/Cell; Python import semantics as modelled (module-level statements, partially initialised modules, submodule fallback). "
                  'Callables and user-registered classes are outside. ForceBias/AdaptiveForceBias serialization gaps are listed known findings. Assertions in the analysed code are taken to hold (they '
                  'are dropped from the normal form).',
@@ -27,7 +28,8 @@ CLAIMS = {'C06': {'text': "Every random draw in src/quansino is shown (who-may-c
                  'resolves. Failure of any one makes every restart of the affected configuration wrong or impossible. Rule T6: the restart writer keeps dictionary insertion order (ASE write_json, or '
                  "json.dump(s) with ASE's encoder and no key sorting by default) — the move table is rebuilt in file order and scheduled by position. T7: per-move state that from_dict re-derives "
                  "(unique_labels) is produced at run time only by the function from_dict uses. T4 also requires that the value written under a context slot's key reads that slot and nothing else. "
-                 "T8: on the abstract heap, after every trial the calculator's cached results belong to the current configuration (a restarted run starts from an empty cache).",
+                 "T8: on the abstract heap, after every trial the calculator's cached results belong to the current configuration (a restarted run starts from an empty cache). T4 also requires that "
+                 'the setattr replay loops of every from_dict are not guarded by the truth value of the stored value.',
          'note': 'Not decided: step-for-step equality of the resumed trajectory (behavioural), JSON number round trip (ASE encoder, trusted; its use of obj.todict() is validated against the '
                  'installed ASE source on every run). ForceBias/AdaptiveForceBias restart is a listed known finding. Assertions in the analysed code are taken to hold (they are dropped from the '
                  'normal form).',
@@ -63,7 +65,8 @@ CLAIMS = {'C06': {'text': "Every random draw in src/quansino is shown (who-may-c
                  '5 leaves and two multiplications (thorough, ~2·10^5 trees) over five move kinds and three operation kinds is compared with the specification (elements in order with multiplicity; '
                  'specialised composite iff all leaves of one displacement/exchange kind); invalid multipliers must raise; CompositeMove.__call__ must not short-circuit. A4 is decided by running '
                  'CompositeMove.__call__ in the checker-owned interpreter on stand-in children for every result vector up to three children (calls in order, once each, with the context; result = '
-                 'any). A1 also demands that every operand (leaf or intermediate result) still holds the elements it held when it was used (in-place list += is modelled).',
+                 'any). A1 also demands that every operand (leaf or intermediate result) still holds the elements it held when it was used (in-place list += is modelled). The empty composite is one '
+                 'of the operand kinds (operations family).',
          'note': 'Trusted: typing caches parameterised generic aliases (same parameters, same object) — either way both branches then build the plain composite. The reflected spelling n*x is only '
                  'checked for classes that define __rmul__ (the property speaks of a*n). Exhaustive within the stated tree bound only. Assertions in the analysed code are taken to hold (they are '
                  'dropped from the normal form).',
@@ -108,7 +111,8 @@ CLAIMS = {'C06': {'text': "Every random draw in src/quansino is shown (who-may-c
                  'H) is decided on the abstract heap: when the integrator starts, the stored K0 is that of the momenta then present, on every path of the trial. Rule E: on the abstract heap the '
                  'energy E_old read by every formula is, at the start of the first trial and after every accepted / rejected / failed trial, the energy of the configuration the next trial starts '
                  'from (a NaN or stale baseline is reported with the path). Public and static helpers of the criteria are seen through unless they keep state on the criterion. Rule W: evaluate() '
-                 'never writes to the context and never changes in place an array that may share storage with a context attribute (views through np.asarray / slices / .T are followed).',
+                 'never writes to the context and never changes in place an array that may share storage with a context attribute (views through np.asarray / slices / .T are followed). Determinants '
+                 'of the cell matrices are treated as signed volumes (a left-handed cell is legal).',
          'note': 'Decides identity over the reals, not floating-point rounding near A = 1. The strain tensor is opaque except that it must vanish for an undeformed cell. For the grand-canonical '
                  'clamp (exponent ≤ 700 before a finite prefactor multiplies it) decision-neutrality assumes the prefactor is a normal double (≥ 1e-300). Unrecognised source expressions end as '
                  'analysis-error, not as a verdict. Assertions in the analysed code are taken to hold (they are dropped from the normal form).',
@@ -146,7 +150,8 @@ CLAIMS = {'C06': {'text': "Every random draw in src/quansino is shown (who-may-c
                  "draws; Ball/Sphere rows have squared norm r²/s² under sin²+cos²=1 with cosθ ~ U(−1,1), φ over one full period; Translation is U(0,1)³@cell minus the group's centroid; Rotation "
                  "rotates a copy of the group about its centre of mass and returns the difference for the same index set, with angles in the unit of ASE's degree-valued euler_rotate (validated "
                  'against the installed ASE source) over a full period; deformation generators are symmetric by construction with symmetric uniform entries, traceless for Shape, scalar for '
-                 'Isotropic, blended as G∘mask + 𝟙∘(¬mask); the composite is the axis-0 sum over one call per child. G6: every operation owns its parameters (no shared module-level default mask).',
+                 'Isotropic, blended as G∘mask + 𝟙∘(¬mask); the composite is the axis-0 sum over one call per child. G6: every operation owns its parameters (no shared module-level default mask). G4 '
+                 'includes a finite case analysis of the mask handling: only `mask is None` selects the default mask.',
          'note': "Trusted lemmas: the (cosθ, φ) sampler is uniform on the sphere and symmetric under d→−d; expm of a symmetric matrix is SPD with inverse expm(−T); det expm(T) = exp(tr T); ASE's "
                  "euler_rotate about 'COM' keeps the centre of mass. Not decided: uniformity in distribution, volume preservation to rounding, symmetry under a non-default mask. Assertions in the "
                  'analysed code are taken to hold (they are dropped from the normal form).',
@@ -171,7 +176,8 @@ CLAIMS = {'C06': {'text': "Every random draw in src/quansino is shown (who-may-c
                  'set_scaled_positions): none may be called on live atoms.',
          'note': "Not decided: the FixRot clause (zero angular momentum to rounding involves an eigendecomposition — a numerical identity outside this family) and that ASE's own constraints do what "
                  "they promise (trusted; the setters' constraint handling is validated against the installed ASE source each run). Assertions in the analysed code are taken to hold (they are dropped "
-                 'from the normal form).',
+                 "from the normal form). Not decided (stated): the FixRot clause 'zero total angular momentum to rounding' is a numerical identity; an independently produced breaking change of that "
+                 'clause (seeded_out_of_reach/C12-7) is not reported.',
          'technique': 'effect classification on the abstract heap (who-may-write) + package-wide writer scan + value numbering'},
  'C19': {'text': 'reinsert_atoms is checked for the scatter/gather shape that makes it the inverse of deletion for any index set in any order (every existing array iterated; length '
                  'len(atoms)+len(new); trailing shape of the source; dtype of the existing array; kept rows under the complement mask and re-inserted rows under the indices, in order; arrays only '
@@ -179,7 +185,8 @@ CLAIMS = {'C06': {'text': "Every random draw in src/quansino is shown (who-may-c
                  'truth-tested, and the result starts from the supplied data), the inclusive size filter is compared with the reference predicate on a bounded domain, labels come from '
                  'enumerate(connected components) of the neighbour-list connectivity without self-interaction. R2 additionally requires a connectivity matrix that is fresh per call (no cached '
                  'helper) and accepts the direct graph idiom; the row tracker knows both mask idioms (ones/False, zeros/True). R3: search_molecules writes into none of its arguments (the supplied '
-                 'default array in particular); reinsert_atoms only into `atoms`.',
+                 "default array in particular); reinsert_atoms only into `atoms`. R1 follows undecidable branches of the per-array loop on both arms: every arm's store must be a rebuilt array with "
+                 'the index scatter.',
          'note': "Trusted: numpy mask/index scatter semantics, ASE's neighbour list, networkx's connected components. Rules read the normalised form of the two functions; a rewrite outside the "
                  "normaliser's reach ends as analysis-error (exit 2), not as a violation. Assertions in the analysed code are taken to hold (they are dropped from the normal form).",
          'technique': 'normalised form (helper inlining) + flow-sensitive row-scatter tracking (fresh array, complement mask) + finite case analysis + exhaustive evaluation of the size window on a '
@@ -190,7 +197,8 @@ CLAIMS = {'C06': {'text': "Every random draw in src/quansino is shown (who-may-c
                  'criteria.evaluate then save/revert and records a falsy one as None without evaluating; every driver whose context can change atom count / cell notifies stored moves on its accept '
                  'path; the simulation dictionary reaches move.to_dict()/criteria.to_dict(). P1 tracks collections of user objects (generators of storage.move, Iterable[MoveType] parameters, '
                  "accumulating lists, the generic composite's children): value comparison / membership on them calls __eq__, which is outside the protocol. P1 also reports truth-value / length tests "
-                 '(`if x`, `not x`, bool(x), len(x)) on objects given to add_move or held by the move table: they call __bool__/__len__, which a conforming object may define.',
+                 '(`if x`, `not x`, bool(x), len(x)) on objects given to add_move or held by the move table: they call __bool__/__len__, which a conforming object may define. P5: the scheduler rules '
+                 "M1–M3 of C09 (every due move is offered, forced slots are placed) are part of 'where it is executed'.",
          'note': "Decides the drivers' own code; behaviour inside user objects is out of scope. The pyright compile-fail witness pair sketched in DESIGN.md was not built (the structural rules decide "
                  'the clauses directly). Assertions in the analysed code are taken to hold (they are dropped from the normal form).',
          'technique': "who-may-access (R-OWNER) dataflow over user-object expressions + exhaustive evaluation of the step loop's routing skeleton over (moved, verdict)"}}
